@@ -41,6 +41,8 @@ type stCase struct {
 	hasRv   bool      // reverse phase: B's events, A's read sizes
 	rv      []stEvent
 	rr      []int
+	hasCut  bool // the connection is lost after cutAt bytes of the wire
+	cutAt   int
 	me      []byte
 	evs     []stEvent
 	ch      []int
@@ -73,6 +75,9 @@ func (c stCase) String() string {
 	evStr(&sb, c.evs)
 	sb.WriteString(" " + sizesStr("ch", c.ch))
 	sb.WriteString(" " + sizesStr("rd", c.rd))
+	if c.hasCut && !c.hasRv {
+		fmt.Fprintf(&sb, " cut %d", c.cutAt)
+	}
 	if c.hasRv {
 		fmt.Fprintf(&sb, " rv %d", len(c.rv))
 		evStr(&sb, c.rv)
@@ -152,6 +157,9 @@ func parseSt(toks []string) stCase {
 	c.evs, i = parseEvs(toks, i, n)
 	c.ch, i = parseSizes("ch", toks, i)
 	c.rd, i = parseSizes("rd", toks, i)
+	if i < len(toks) && toks[i] == "cut" {
+		c.hasCut, c.cutAt = true, atoi(toks[i+1])
+	}
 	if i < len(toks) && toks[i] == "rv" {
 		c.hasRv = true
 		c.rv, i = parseEvs(toks, i+2, atoi(toks[i+1]))
@@ -223,8 +231,41 @@ const errTailWait = 150 * time.Millisecond
 // proxy forwards from -> to in the given chunk sizes (best effort: a short pause after every
 // chunk lets the reader drain it), the remainder as it comes.  At EOF of `from` the close is
 // propagated unless the case wants the connection to stay open (tail = err).
-func proxy(from, to *net.TCPConn, sizes []int, propagateClose bool, done chan struct{}) {
+func proxy(from, to *net.TCPConn, sizes []int, propagateClose bool, limit int, done chan struct{}) {
 	defer close(done)
+	if limit >= 0 {
+		// the connection is lost after `limit` bytes: forward exactly those (in the given chunk sizes),
+		// end or stall the outbound side, keep draining the sender
+		left := limit
+		buf := make([]byte, 32*1024)
+		idx := 0
+		for left > 0 {
+			n := left
+			if idx < len(sizes) && sizes[idx] > 0 && sizes[idx] < n {
+				n = sizes[idx]
+			}
+			idx++
+			if n > len(buf) {
+				n = len(buf)
+			}
+			m, err := io.ReadFull(from, buf[:n])
+			if m > 0 {
+				if _, werr := to.Write(buf[:m]); werr != nil {
+					break
+				}
+				left -= m
+				time.Sleep(40 * time.Microsecond)
+			}
+			if err != nil {
+				break
+			}
+		}
+		if propagateClose {
+			to.CloseWrite()
+		}
+		go io.Copy(io.Discard, from)
+		return
+	}
 	for _, s := range sizes {
 		if s <= 0 {
 			continue
@@ -265,13 +306,17 @@ func plainSetup(c *stCase, addCloser func(io.Closer)) stSetup {
 	addCloser(wT)
 	addCloser(pA)
 	su := stSetup{wT: wT, rT: pA, fwdDone: make(chan struct{})}
-	su.useProxy = c.tailErr || len(c.ch) > 0
+	su.useProxy = c.tailErr || len(c.ch) > 0 || c.hasCut
 	if su.useProxy {
 		pB, r2 := tcpPair()
 		addCloser(pB)
 		addCloser(r2)
 		su.rT = r2
-		go proxy(pA, pB, c.ch, !c.tailErr, su.fwdDone)
+		limit := -1
+		if c.hasCut {
+			limit = c.cutAt
+		}
+		go proxy(pA, pB, c.ch, !c.tailErr, limit, su.fwdDone)
 	}
 	return su
 }
@@ -670,7 +715,7 @@ func withTracker(r *vc.Rand, c *stCase) {
 // withReverse adds a reverse phase (B answers on the stream it has read from, A reads on the one it
 // has written to) to a case that runs on a direct connection.
 func withReverse(r *vc.Rand, c *stCase) {
-	if c.hasRv || c.tailErr || len(c.ch) > 0 {
+	if c.hasRv || c.tailErr || len(c.ch) > 0 || c.hasCut {
 		return
 	}
 	c.hasRv = true
@@ -710,7 +755,7 @@ func stLine(r *vc.Rand, c stCase, kind string, key string) caseLine {
 	if len(rdk) > 80 {
 		rdk = rdk[:80]
 	}
-	dk := fmt.Sprintf("%x|%s|%v|%v|%s|%v|%v%v%d", c.me, ek.String(), c.tailErr, c.rw, rdk, c.ch, c.tkNil, c.tk, c.pre) + fmt.Sprint(c.hasRv, len(c.rv), len(c.rr))
+	dk := fmt.Sprintf("%x|%s|%v|%v|%s|%v|%v%v%d", c.me, ek.String(), c.tailErr, c.rw, rdk, c.ch, c.tkNil, c.tk, c.pre) + fmt.Sprint(c.hasRv, len(c.rv), len(c.rr), c.hasCut, c.cutAt)
 	if len(c.evs) < 2 {
 		dk = ""
 	}
@@ -879,6 +924,52 @@ func genSt(r *vc.Rand, thorough bool) []caseLine {
 		}
 		mkReads(r, &c, vc.Pick(r, [][]int{{maxFrame}, {7}, {700}}), 3)
 		out = append(out, stLine(r, c, "duplex", ""))
+	}
+	// (2d) the connection is lost at EVERY byte offset of short wires (inside headers, inside payloads,
+	//      between frames), ending (eof) or stalling (err); and at random offsets of longer ones
+	for i := 0; i < 6; i++ {
+		c := stCase{me: meIDs[i%len(meIDs)], tailErr: i%3 == 2}
+		c.evs = []stEvent{
+			{kind: "w", n: 3 + i, seed: r.Intn(256)},
+			{kind: "f", tid: foreignFor(r, c.me), ty: 1, n: 2, seed: 7},
+			{kind: "w", n: 2, seed: r.Intn(256)},
+			{kind: vc.Pick(r, []string{"cw", "cl"})},
+		}
+		wire := 4*21 + 3 + i + 2 + 2
+		step := 1
+		if c.tailErr { // every stalled case waits for the time-out
+			step = 9
+		}
+		for k := 0; k <= wire+1; k += step {
+			cc := c
+			cc.hasCut, cc.cutAt = true, k
+			mkReads(r, &cc, [][]int{{1}, {64}, {2, 0, 5}}[k%3], 3)
+			out = append(out, stLine(r, cc, "cut", ""))
+		}
+	}
+	cuts := 40
+	if thorough {
+		cuts = 600
+	}
+	for i := 0; i < cuts; i++ {
+		c := stCase{me: vc.Pick(r, meIDs), tailErr: r.Intn(10) == 0}
+		total := 0
+		for j := 0; j < 1+r.Intn(4); j++ {
+			n := vc.Pick(r, []int{0, 1, 100, 1450, 5000, 66000})
+			c.evs = append(c.evs, stEvent{kind: "w", n: n, seed: r.Intn(256)})
+			total += n + 21*(1+n/maxFrame)
+			if r.Intn(3) == 0 {
+				c.evs = append(c.evs, stEvent{kind: "f", tid: foreignFor(r, c.me), ty: vc.Pick(r, []int{1, 3, 9}), n: r.Intn(50), seed: 1})
+				total += 21 + 50
+			}
+		}
+		c.evs = append(c.evs, stEvent{kind: vc.Pick(r, []string{"cw", "cl"})})
+		c.hasCut, c.cutAt = true, r.Intn(total+30)
+		mkReads(r, &c, vc.Pick(r, [][]int{{maxFrame}, {1 + r.Intn(2000), maxFrame}}), 3)
+		if r.Intn(2) == 0 {
+			c.ch = randSizes(r, c.cutAt+1, 10)
+		}
+		out = append(out, stLine(r, c, "cut", ""))
 	}
 	// (3) random scripts
 	rounds := 450
